@@ -126,7 +126,26 @@ def reference(desc, role, seq):
             return Fraction(-len(bad)), [cl(i) for i in bad], not bad
         return None, [], None
     if name == "UniquifyAllKmers":
-        return None, [], None
+        k = kw["k"]
+        ref = kw.get("reference")
+        ra, rb = (a, b) if ref in ("here", "same") else (0, n)
+        irc = kw.get("include_reverse_complement", True)
+
+        def canon(i):
+            w = seq[i:i + k]
+            return min(w, rcs(w)) if irc else w
+
+        def count(last_ref, loc_end_strict):
+            idx = list(range(ra, last_ref + 1))
+            occ = {}
+            for i in idx:
+                occ.setdefault(canon(i), []).append(i)
+            return [i for i in idx if len(occ[canon(i)]) > 1 and a <= i
+                    and ((i + k < b) if loc_end_strict else (i + k <= b))]
+        documented = count(rb - k, False)
+        as_implemented = count(rb - k - 1, True)      # finding F10: last k-mer never examined
+        return (Fraction(-len(documented)), [set(range(i, i + k)) for i in documented], not documented,
+                Fraction(-len(as_implemented)))
     return None, [], None
 
 
@@ -139,7 +158,11 @@ def oracle(case, out):
     # consistency of flags (C20 half, cheap to check here too)
     if passes != (score >= 0):
         return "passes flag is not (score >= 0)"
-    exp, breaches, pred = reference(desc, role, seq)
+    ref = reference(desc, role, seq)
+    exp, breaches, pred = ref[:3]
+    if len(ref) == 4 and exp is not None and exp != score:
+        if ref[3] == score:
+            return "UniquifyAllKmers ignores the last k-mer: score %s, documented count %s" % (float(score), float(exp))
     if exp is not None:
         if abs(exp - score) > Fraction(1, 10**9) * (1 + abs(exp)):
             return "score %s differs from the documented formula %s" % (float(score), float(exp))
